@@ -31,6 +31,16 @@ type Sess struct {
 	Ops map[uint64]*spb.AFTOperation
 	// Local queues responses that the proxy answers itself.
 	State map[string]any
+	// reject, when set by a fault, is the status the RPC of this session ends with.
+	reject error
+}
+
+// Reject makes this session's Modify RPC end with err (the message being handled is not
+// passed on to the reference server).
+func (s *Sess) Reject(err error) {
+	s.mu.Lock()
+	defer s.mu.Unlock()
+	s.reject = err
 }
 
 // Reply sends a response to this session's client directly.
@@ -51,6 +61,8 @@ type Fault struct {
 	Response func(s *Sess, resp *spb.ModifyResponse) *spb.ModifyResponse
 	// Get may rewrite the stream of Get responses.
 	Get func(p *Proxy, req *spb.GetRequest, resps []*spb.GetResponse) []*spb.GetResponse
+	// ModifyErr, when set, is the status every Modify RPC ends with at once.
+	ModifyErr error
 	// GetEndErr, when set, is the status every Get RPC ends with after its (possibly
 	// rewritten) responses were streamed.
 	GetEndErr error
@@ -147,6 +159,12 @@ func (m *modWrap) Recv() (*spb.ModifyRequest, error) {
 		if f := s.P.F; f != nil && f.Request != nil {
 			out = f.Request(s, req)
 		}
+		s.mu.Lock()
+		rej := s.reject
+		s.mu.Unlock()
+		if rej != nil {
+			return nil, rej
+		}
 		if out == nil {
 			continue // dropped (answered locally or swallowed)
 		}
@@ -175,6 +193,9 @@ func (m *modWrap) Send(r *spb.ModifyResponse) error {
 
 // Modify implements the gRIBI service.
 func (p *Proxy) Modify(stream spb.GRIBI_ModifyServer) error {
+	if p.F != nil && p.F.ModifyErr != nil {
+		return p.F.ModifyErr
+	}
 	s := &Sess{P: p, Ops: map[uint64]*spb.AFTOperation{}, State: map[string]any{}}
 	s.send = stream.Send
 	p.mu.Lock()
@@ -185,7 +206,27 @@ func (p *Proxy) Modify(stream spb.GRIBI_ModifyServer) error {
 	p.mu.Lock()
 	s.Ended = true
 	p.mu.Unlock()
+	s.mu.Lock()
+	rej := s.reject
+	s.mu.Unlock()
+	if rej != nil {
+		return rej
+	}
 	return err
+}
+
+// LiveNegotiated returns the number of sessions other than s whose RPC is still running and
+// whose parameters were accepted.
+func (p *Proxy) LiveNegotiated(s *Sess) int {
+	p.mu.Lock()
+	defer p.mu.Unlock()
+	n := 0
+	for _, o := range p.sess {
+		if o != s && !o.Ended && o.Params != nil {
+			n++
+		}
+	}
+	return n
 }
 
 // Live returns the sessions whose Modify RPC is still running.
